@@ -552,7 +552,9 @@ func Run(c Case) (*Trace, error) {
 			return nil, fmt.Errorf("harness: %v", err)
 		}
 	}
-	if !env.WaitIdle(40*time.Millisecond, 30*time.Second) {
+	// (a longer quiet period than elsewhere: on a loaded machine the informers can lag behind the last changes by
+	// tens of milliseconds, and the snapshots read after this point are judged against the cluster)
+	if !env.WaitIdle(120*time.Millisecond, 30*time.Second) {
 		tr.Problems = append(tr.Problems, "operator did not become idle within 30s at the end")
 	}
 	stepsPhase = false
